@@ -49,6 +49,13 @@ func scenarioC01(r *Run) {
 		return
 	}
 	r.Outcome("signed")
+	{
+		algs := ""
+		for _, k := range keysOf(spec) {
+			algs += fmt.Sprintf("%d,", k.Alg)
+		}
+		r.Outcome(fmt.Sprintf("%s/algs=%s/ext=%s/payload=%s/viaDir=%v", spec.Kind, algs, extClass(spec.External), sizeClass(len(spec.Payload)), viaDir))
+	}
 	vs := r.verifiersFor(spec, viaDir)
 	rc0 := &Received{Kind: spec.Kind, M1: is.M1, MS: is.MS}
 	r.Check()
@@ -58,6 +65,9 @@ func scenarioC01(r *Run) {
 
 	detached := t.Bool(1, 4, "c01.detached")
 	r.Op("DELIVER", "detached=%v", detached)
+	if detached {
+		r.Outcome("detached")
+	}
 	wire, err := r.Encode(is, detached)
 	if err != nil {
 		r.Fail("encode-fails-after-sign/"+spec.Kind.String(), "signing succeeded but MarshalCBOR returned %v\nspec: %s", err, spec)
@@ -282,6 +292,7 @@ func c01Envelope(r *Run) {
 	verifier := r.verifierFor(k, false)
 	h := libHeaders(base, Spelling{T: t}, true)
 	r.Op("ENVELOPE", "key=%s hash=%d prot=%s unprot=%s", k.Name, ha, diagBucket(base.Prot), diagBucket(base.Unprot))
+	r.Outcome(fmt.Sprintf("envelope/alg=%d/hash=%d/ct=%v/loc=%v", k.Alg, ha, p.PreimageContentType != nil, p.Location != ""))
 	var env []byte
 	var err error
 	r.Lib(func() { env, err = cose.SignHashEnvelope(ent, signer, h, p) })
